@@ -214,6 +214,18 @@ def expectedGet (r : Routes) (u : RoaUpdates) (p : Roa) : Option Comment :=
   | some c => some c
   | none => (baseline r u.removed).get? p
 
+/-- Some entry of the delta is bad: a removal of something that is not configured (or was
+already removed by this delta), or an addition with an invalid max length, with a prefix
+that is not held, or of an authorisation already present with the same comment.
+"Present" and "same comment" refer to the configuration as it is when the entry is looked
+at: after all removals and the admissible additions before it (`Ca.Spec`). -/
+def SomeEntryBad (r : Routes) (held : Roa → Bool) (u : RoaUpdates) : Prop :=
+  (∃ pre p post, u.removed = pre ++ p :: post ∧ (r.has p = false ∨ p ∈ pre)) ∨
+  (∃ pre c post, u.added = pre ++ c :: post ∧
+    (maxLengthValid c.payload = false ∨ held c.payload = false ∨
+      (present (baseline r u.removed) held pre c.payload = true ∧
+        commentOf (baseline r u.removed) held pre c.payload = c.comment)))
+
 end Spec
 
 end KM.Ca
